@@ -311,7 +311,36 @@ def build_T15d(tree):
     return t1 + '\n\n' + t2, hashlib.sha256(ast.unparse(fn).encode()).hexdigest()
 
 
+# ---------------------------------------------------------------- T15e: enumerations of sr/enum.py used by C15/C16
+def _enum_values(tree, cls):
+    for st in tree.body:
+        if isinstance(st, ast.ClassDef) and st.name == cls:
+            out = []
+            for x in st.body:
+                if isinstance(x, ast.Assign) and isinstance(x.value, ast.Constant) and isinstance(x.value.value, str) \
+                        and isinstance(x.targets[0], ast.Name):
+                    out.append(x.value.value)
+            if not out:
+                raise Unsupported(f'{cls} has no string members')
+            return out
+    raise Unsupported(f'enumeration {cls} not found')
+
+
+def build_T15e(tree):
+    """sr/enum.py: the values of ValueTypeValues, RelationshipTypeValues, GraphicTypeValues, GraphicTypeValues3D
+    (what `ValueTypeValues(x)` etc. accept)."""
+    from py2lean import lean_table
+    parts, vals = [], []
+    for cls, nm in (('ValueTypeValues', 'srValueTypes'), ('RelationshipTypeValues', 'srRelationshipTypes'),
+                    ('GraphicTypeValues', 'srGraphicTypes2D'), ('GraphicTypeValues3D', 'srGraphicTypes3D')):
+        v = _enum_values(tree, cls)
+        vals.append(v)
+        parts.append(lean_table(nm, 'List String', ['"' + x + '"' for x in v], doc=f'`sr/enum.py::{cls}`: the values'))
+    return '\n\n'.join(parts), hashlib.sha256(repr(vals).encode()).hexdigest()
+
+
 TARGETS = {'T15a': {'file': 'sr/sop.py', 'build': build_T15a},
+           'T15e': {'file': 'sr/enum.py', 'build': build_T15e},
            'T15d': {'file': 'sr/sop.py', 'build': build_T15d},
            'T15c': {'file': 'sr/utils.py', 'build': build_T15c},
            'T15b': {'file': 'sr/utils.py', 'build': build_T15b}}
